@@ -166,7 +166,7 @@ def _composition(rng, total, k):
 
 
 def design_vector(rng, vals, pattern):
-    """Integer counts (one per category, payload order) of 1e5 .. 3e5 numeric-valued respondents whose
+    """Integer counts (one per category, payload order) of 1e5 .. 1e6 numeric-valued respondents whose
     cumulative count IN VALUE ORDER passes N/2 as `pattern` says:
       last_of_category  N = 2m+1, cumulative m+1 at a category: the middle respondent is its last one
                         (cumulative share 1/2 + 1/(2N), i.e. within 5e-6 of 1/2: an approximate
@@ -179,7 +179,7 @@ def design_vector(rng, vals, pattern):
     n = len(vals)
     if len(order) < 2 or pattern == "random":
         return [rng.randint(0, 120000) for _ in range(n)]
-    m = rng.randint(50000, 150000)
+    m = int(10 ** rng.uniform(4.7, 5.7))      # N = 1e5 .. 1e6: 1/(2N) between 5e-6 and 5e-7
     N = 2 * m + 1 if pattern in ("last_of_category", "first_of_next") else 2 * m
     target = {"last_of_category": m + 1, "first_of_next": m, "exact_tie": m,
               "tie_plus_one": m + 1, "tie_minus_one": m - 1}[pattern]
@@ -429,7 +429,7 @@ def build_term(case, io):
         c, v = g_vec(base), g_vals(vals)
         med = "strand_scale_median %s %s" % (c, v)
         if case.get("large"):
-            # 1e5 .. 3e5 respondents: the model's expansion (repeat + insertion sort) is infeasible;
+            # 1e5 .. 1e6 respondents: the model's expansion (repeat + insertion sort) is infeasible;
             # the cumulative rule needs none and IS the respondents' median (C14_median_eq,
             # C14_median_sorted_categories); NaN (nobody) is the strand's None
             med = _cum_median(sort_order(vals), c, v)
@@ -795,7 +795,7 @@ def run(tier, seed):
         rep.dist("valued" if nt else "no-numeric-values")
         rep.dist("integer-counts" if case["integer_weights"] else "fractional-counts")
         if case.get("large"):
-            rep.dist("large-N (1e5..3e5 respondents per designed vector)")
+            rep.dist("large-N (1e5..1e6 respondents per designed vector)")
             for pat in case.get("patterns", []):
                 rep.dist("large-N vector pattern=" + pat)
         if not case["strand"]:
